@@ -20,7 +20,7 @@ func init() {
 			"C11.3 ChannelData: Decode returns nil only on the Valid() edge and when the declared length does not exceed the bytes available, and truncates Data to exactly the declared length; WriteHeader writes Number and len(Data) into the first four bytes; after the payload has been appended, Encode only ever extends Raw by appending constant zero bytes (no re-slicing into stale capacity); " +
 			"C11.4 the integer an AddTo writes is a pure conversion of the receiver's value (no clamping or substitution path), matching the full width GetFrom reads; " +
 			"C11.5 the datagram recogniser IsChannelData does not involve the padding rule (it agrees with Decode on unpadded datagrams); " +
-			"C11.6 attribute encoders refuse a value only through the STUN library's own checks (which the decoders apply too): no refusal of their own makes a decoded value un-encodable.",
+			"C11.6 attribute encoders refuse a value only through the STUN library's own checks (which the decoders apply too): no refusal of their own makes a decoded value un-encodable. C11.7 Decode refuses only short buffers, invalid numbers and declared lengths beyond the buffer (closed refusal set).",
 		NotCovered: "round-trip *equality* of values over the whole domain is numerical and is not claimed; pion/stun's own attribute framing; the padding amount (0..3) is checked structurally, not arithmetically.",
 		Run:        runC11,
 	})
@@ -342,6 +342,11 @@ func runC11(c *Ctx) {
 							}
 						}
 					}
+					// ... or Raw is only lengthened (re-sliced, slices.Grow) and everything from the
+					// end of the payload on is cleared before Encode returns
+					if !okZero && lengthenedThenCleared(w, x, payload, rawF) {
+						okZero = true
+					}
 					if okZero {
 						nPad++
 					} else {
@@ -472,6 +477,7 @@ func runC11(c *Ctx) {
 	}
 	ruleRecogniserIgnoresPadding(c, "C11.5")
 	ruleEncodersTotal(c, "C11.6")
+	ruleDecodeRefusals(c, "C11.7")
 }
 
 // ruleRecogniserIgnoresPadding (C11.5): IsChannelData decides whether a DATAGRAM is a
@@ -732,4 +738,97 @@ func ruleChannelHeaderWritten(c *Ctx, rule string) {
 		}
 		c.Bad(rule, fname(wh), "WriteHeader", w.pos(wh.Pos()), why)
 	}
+}
+
+// lengthenedThenCleared: the store st (after the payload append) puts back into Raw a value
+// made from Raw by re-slicing / slices.Grow only — no byte is written — and on every path from
+// it to the function's exits clear(Raw[E:]) runs, E being len(Raw) as read between the
+// payload append and this store: the bytes past the payload are zero whatever the buffer held.
+func lengthenedThenCleared(w *World, st *ssa.Store, payload ssa.Instruction, rawF *types.Var) bool {
+	fn := st.Parent()
+	isRawLoad := func(v ssa.Value) bool {
+		if _, f, ok := fieldLoad(stripIface(v)); ok && f == rawF {
+			return true
+		}
+		_, f, ok := fieldLoad(w.resolveLoad(v))
+		return ok && f == rawF
+	}
+	// the stored value: Slice / Grow chain over a load of Raw
+	v := st.Val
+	for d := 0; d < 6; d++ {
+		switch x := stripIface(v).(type) {
+		case *ssa.Slice:
+			if x.Low != nil {
+				if k, isK := constInt(x.Low); !isK || k != 0 {
+					return false
+				}
+			}
+			v = x.X
+			continue
+		case *ssa.Call:
+			if stdCallee(&x.Call) == "slices.Grow" && len(x.Call.Args) == 2 {
+				v = x.Call.Args[0]
+				continue
+			}
+			return false
+		}
+		break
+	}
+	if !isRawLoad(v) {
+		return false
+	}
+	// E: len(load Raw) with the load after the payload append and before any later store to Raw
+	isEnd := func(e ssa.Value) bool {
+		t := termOf(e)
+		if !t.Len || t.Cap {
+			return false
+		}
+		ld, ok := stripIface(t.V).(*ssa.UnOp)
+		if !ok || !isRawLoad(ld) || !instrDominates(payload, ld) {
+			return false
+		}
+		clean := true
+		w.eachInstr(fn, func(in ssa.Instruction) {
+			s2, ok := in.(*ssa.Store)
+			if !ok || in == payload {
+				return
+			}
+			if fa, isFA := s2.Addr.(*ssa.FieldAddr); isFA && fieldOf(fa) == rawF && instrReaches(payload, s2) && instrReaches(s2, ld) {
+				clean = false
+			}
+		})
+		return clean
+	}
+	isClear := func(in ssa.Instruction) bool {
+		call, ok := in.(*ssa.Call)
+		if !ok {
+			return false
+		}
+		b, isB := call.Call.Value.(*ssa.Builtin)
+		if !isB || b.Name() != "clear" || len(call.Call.Args) != 1 {
+			return false
+		}
+		sl, isS := stripIface(call.Call.Args[0]).(*ssa.Slice)
+		return isS && sl.High == nil && sl.Low != nil && isRawLoad(sl.X) && isEnd(sl.Low)
+	}
+	blk := st.Block()
+	after := false
+	for _, in := range blk.Instrs {
+		if in == ssa.Instruction(st) {
+			after = true
+			continue
+		}
+		if after && isClear(in) {
+			return true
+		}
+	}
+	if len(blk.Succs) == 0 {
+		return false
+	}
+	for _, sb := range blk.Succs {
+		if ok, _ := mustPassBefore(sb, isClear, func(*ssa.BasicBlock) bool { return false }); !ok {
+			return false
+		}
+	}
+	return true
 }
